@@ -636,6 +636,10 @@ func init() {
 				var ss []string
 				for i := 0; i < r.Range(3, 7); i++ {
 					cur += uint64(Pick(r, 1, 1, 2, 30, 60, 155, 255, 256, 257, 300, 1000, 65000))
+					if r.Chance(0.35) {
+						// land on a chosen width of the last (partial) tile: small powers of two, one short of full
+						cur = (cur/256+1)*256 + uint64(Pick(r, 1, 2, 4, 8, 8, 16, 32, 64, 128, 255))
+					}
 					ss = append(ss, fmt.Sprint(cur))
 				}
 				p.Cfg.Notes["sizes"] = strings.Join(ss, ",")
